@@ -268,103 +268,176 @@ PROPERTIES["C15"] = {
 }
 
 def c17_run(pid, tier, seed):
-    """No undefined behaviour on valid use: the specification-generated VALID workloads of the
-    other checks (state-graph walks, constructions, searches, file round trips), executed in
-    several build configurations; every configuration must agree with the specification after
-    every step (hence with each other) and no sanitizer / debug-mode diagnostic may fire."""
+    """No undefined behaviour on valid use.  The specification supplies the VALID workloads
+    (state graphs of the eight classes with and without force, all small inputs of the
+    constructions, searches, iterators and file round trips, the random and family search
+    inputs); each is executed by every build configuration.  The verdict is about the builds,
+    not about the specification: (a) no crash, sanitizer report or debug-mode assertion in any
+    build, (b) all builds produce the same results (digest of every outcome and complete
+    projection; identical records; identical sets of cases that differ from the specification).
+    A purely functional defect gives the same wrong results in every build and is not C17's."""
     import algo
     import concurrent.futures
+    import hashlib
     q = tier == "quick"
-    builds = ["dbg", "asan", "clang"] + ([] if q else ["o2"])
+    builds = ["o1", "dbg", "asan", "clang"] + ([] if q else ["o2"])
     S = props_machine.S
     F = (False, True)
+    fo = props_machine._force_ops
+    scns = [S("dn3", "dn", 3 if not q else 2, reps=1), S("un3", "un", 3, reps=1),
+            S("dl2", "dl", 2, labels=(0, 1), reps=1), S("ul2", "ul", 2, labels=(0, 1), reps=1),
+            S("dm2", "dm", 2, reps=1), S("um2", "um", 2, reps=1), S("dw2", "dw", 2, reps=1), S("uw2", "uw", 2, reps=1),
+            S("dn2f", "dn", 2, ops=fo("dn"), forces=F, maxcopies=2, reps=1),
+            S("un2f", "un", 2, ops=fo("un"), forces=F, maxcopies=2, reps=1),
+            S("um2f", "um", 2, ops=fo("um"), mults=(1, 2), maxmult=3, forces=F, maxcopies=2, reps=1),
+            S("dw2f", "dw", 2, ops=fo("dw"), forces=F, maxcopies=2, reps=1)]
+    violations = []
+    os.makedirs(vf.REPLAYS, exist_ok=True)
 
-    def machine_scns(b):
-        fo = props_machine._force_ops
-        out = [S("dn3-" + b, "dn", 3 if not q else 2, reps=1), S("un3-" + b, "un", 3, reps=1),
-               S("dl2-" + b, "dl", 2, labels=(0, 1), reps=1), S("ul2-" + b, "ul", 2, labels=(0, 1), reps=1),
-               S("dm2-" + b, "dm", 2, reps=1), S("um2-" + b, "um", 2, reps=1),
-               S("dw2-" + b, "dw", 2, reps=1), S("uw2-" + b, "uw", 2, reps=1),
-               S("dn2f-" + b, "dn", 2, ops=fo("dn"), forces=F, maxcopies=2, reps=1),
-               S("un2f-" + b, "un", 2, ops=fo("un"), forces=F, maxcopies=2, reps=1),
-               S("um2f-" + b, "um", 2, ops=fo("um"), mults=(1, 2), maxmult=3, forces=F, maxcopies=2, reps=1),
-               S("dw2f-" + b, "dw", 2, ops=fo("dw"), forces=F, maxcopies=2, reps=1)]
-        for s in out:
-            s.trace = {"histories": 3 if q else 30, "steps": 120, "nmax": 6, "families": None}
-            if s.group in ("dl", "ul"):
-                s.trace["histories"] = 1 if q else 5
-        return out
+    # ---- graph objects: one transition file per scenario, walked by every build
+    exes = {b: vf.build_gh(b) for b in builds}
+    with concurrent.futures.ThreadPoolExecutor(max_workers=4) as ex:
+        emitted = list(ex.map(lambda s: machine_emit(pid, s), scns))
+    per_build = {b: {"state_graph_transitions_executed": 0, "object_executions": 0, "cases": 0, "case_runs": 0} for b in builds}
+    jobs = [(s, path, b) for (s, (path, _)) in zip(scns, emitted) for b in builds]
 
-    def algo_sets(b):
-        C = algo.Cases
-        sets = [C("rev-" + b, "labeled", "reverse", 2, (0, 1)), C("tod-" + b, "labeled", "todirected", 2 if q else 3, (0, 1)),
-                C("tou-" + b, "nolabel", "toundirected", 3), C("el-" + b, "labeled", "edgelist", 3, (0, 1), maxlen=2),
-                C("elm-" + b, "multi", "edgelist", 3, (0, 1, 2), maxlen=2),
-                C("elw-" + b, "weighted", "edgelist", 3, attrs_def="AttrsNeg", maxlen=2),
-                C("sg-" + b, "labeled", "subgraphU", 3, (0, 1)),
-                C("bfsd-" + b, "nolabel", "searchD", 3, families=props_algo.NOLABEL),
-                C("bfsu-" + b, "nolabel", "searchU", 3 if q else 4, families=props_algo.NOLABEL),
-                C("dijd-" + b, "weighted", "dijkstraD", 2, (0, 1, 2)), C("diju-" + b, "weighted", "dijkstraU", 3, (0, 1, 2)),
-                algo.IterCases("it-d-" + b, True, 2 if q else 3, families=props_algo.NOLABEL),
-                algo.IterCases("it-u-" + b, False, 3, maxins=4, families=props_algo.NOLABEL)]
-        return sets
+    def walk(job):
+        s, path, b = job
+        return job, __import__("machine").walk_file(pid, s, exes[b], path, b, {"compare": False})
+    digests = {}
+    with concurrent.futures.ThreadPoolExecutor(max_workers=6) as ex:
+        for (s, path, b), r in ex.map(walk, jobs):
+            if r["summary"] is None or "Sanitizer" in r["stderr"] or "Error: attempt" in r["stderr"] or r["rc"] not in (0,):
+                rp = os.path.join(vf.REPLAYS, "%s-%s-%s-crash.json" % (pid, s.name, b))
+                note = r["note"] or {}
+                note.update({"kind": "walk", "crashed": True, "build": b, "rc": r["rc"], "stderr": r["stderr"]})
+                with open(rp, "w") as f:
+                    json.dump(note, f, indent=1)
+                first = [l for l in r["stderr"].splitlines() if "ERROR" in l or "Error" in l or "runtime error" in l][:1]
+                violations.append({"replay": rp, "what": "[build %s] %s: harness ended with status %s on %s %s" %
+                                   (b, s.name, r["rc"], json.dumps(note.get("call"))[:120], " | ".join(first)[:200])})
+                continue
+            w = r["summary"]
+            digests.setdefault(s.name, {})[b] = w["digest"]
+            per_build[b]["state_graph_transitions_executed"] += w["transitions"]
+            per_build[b]["object_executions"] += w["executions"]
+    for name, dg in digests.items():
+        if len(set(dg.values())) > 1:
+            rp = os.path.join(vf.REPLAYS, "%s-%s-digests.json" % (pid, name))
+            with open(rp, "w") as f:
+                json.dump({"kind": "digest", "scenario": name, "digests": dg}, f, indent=1)
+            violations.append({"replay": rp, "what": "%s: the builds disagree on the results of the same calls: %s" % (name, json.dumps(dg))})
 
-    def io_sets(b):
-        B, T = algo.BinCases, algo.TextCases
-        return [B("brt-d2-" + b, True, 2, "roundtrip"), B("brt-u0-" + b, False, 0, "roundtrip"),
-                B("brt-d8-" + b, True, 8, "roundtrip", labels=(2, 258)), B("brec-" + b, False, 2, "records"),
-                T("trt-s-" + b, True, "string", "roundtrip"), T("trt-n-" + b, False, "none", "roundtrip"),
-                T("trt-i-" + b, False, "int", "roundtrip", maxn=2), T("tld-" + b, True, "string", "load", maxedges=1, lineset="small"),
-                T("tnm-" + b, True, "string", "named", maxedges=2, lineset="tiny")]
+    # ---- constructions, searches, iterators, file codecs: cases enumerated once, run by every build
+    C = algo.Cases
+    a_sets = [C("rev", "labeled", "reverse", 2, (0, 1)), C("tod", "labeled", "todirected", 2 if q else 3, (0, 1)),
+              C("tou", "nolabel", "toundirected", 3), C("el", "labeled", "edgelist", 3, (0, 1), maxlen=2),
+              C("elm", "multi", "edgelist", 3, (0, 1, 2), maxlen=2),
+              C("elw", "weighted", "edgelist", 3, attrs_def="AttrsNeg", maxlen=2),
+              C("sg", "labeled", "subgraphU", 3, (0, 1)),
+              C("bfsd", "nolabel", "searchD", 3, families=props_algo.NOLABEL),
+              C("bfsu", "nolabel", "searchU", 3 if q else 4, families=props_algo.NOLABEL),
+              C("dijd", "weighted", "dijkstraD", 2, (0, 1, 2)), C("diju", "weighted", "dijkstraU", 3, (0, 1, 2)),
+              algo.IterCases("it-d", True, 2 if q else 3, families=props_algo.NOLABEL),
+              algo.IterCases("it-u", False, 3, maxins=4, families=props_algo.NOLABEL)]
+    B, T = algo.BinCases, algo.TextCases
+    i_sets = [B("brt-d2", True, 2, "roundtrip"), B("brt-u0", False, 0, "roundtrip"),
+              B("brt-d8", True, 8, "roundtrip", labels=(2, 258)), B("brec", False, 2, "records"),
+              T("trt-s", True, "string", "roundtrip"), T("trt-n", False, "none", "roundtrip"),
+              T("trt-i", False, "int", "roundtrip", maxn=2), T("tld", True, "string", "load", maxedges=1, lineset="small"),
+              T("tnm", True, "string", "named", maxedges=2, lineset="tiny")]
+    for cs in a_sets:
+        props_algo.with_families(cs)
+    with concurrent.futures.ThreadPoolExecutor(max_workers=5) as ex:
+        a_files = list(ex.map(lambda cs: algo.emit_cases(pid, cs), a_sets))
+        i_files = list(ex.map(lambda cs: algo.emit_cases(pid, cs), i_sets))
+    fd = vf.fresh_dir(os.path.join(vf.RUN, pid, "files"))
+    sp = os.path.join(fd, "search.ndjson")
+    props_algo.write_search_cases(sp, seed, "quick", light=True)
 
     def one_build(b):
-        gh = vf.build_gh(b)
-        ah = vf.build_ah(b)
-        io = vf.build_ioh(b)
-        scns = machine_scns(b)
-        mres, v1 = props_machine.run_scenarios(pid, scns, seed, gh)
-        d = vf.fresh_dir(os.path.join(vf.RUN, pid, "files-" + b))
-        sp = os.path.join(d, "search.ndjson")
-        props_algo.write_search_cases(sp, seed, "quick")
-        ares, v2 = props_algo.run_all(pid, algo_sets(b), [("search-files-" + b, sp, {"families": props_algo.NOLABEL + ["multigraph+weighted classes"]})],
-                                      seed, ah, validate=(b == "dbg"))
-        ires, v3 = props_algo.run_all(pid, io_sets(b), [], seed, io, validate=False)
-        for v in v1 + v2 + v3:
-            v["what"] = "[build %s] %s" % (b, v["what"])
-        return b, mres, scns, ares + ires, v1 + v2 + v3
+        ah, io = vf.build_ah(b), vf.build_ioh(b)
+        res = []
+        for cs, (path, _) in zip(a_sets, a_files):
+            res.append(algo.run_ah_on_file(pid, "%s-%s" % (cs.name, b), path, ah, seed,
+                                           extra_plan={"families": cs.families} if cs.families else None))
+        res.append(algo.run_ah_on_file(pid, "search-files-" + b, sp, ah, seed,
+                                       extra_plan={"families": props_algo.NOLABEL + ["multigraph+weighted classes"]}))
+        for cs, (path, _) in zip(i_sets, i_files):
+            res.append(algo.run_ah_on_file(pid, "%s-%s" % (cs.name, b), path, io, seed))
+        return b, res
 
-    violations, per_build = [], {}
-    evaluations, distinct = 0, 0
+    outcome = {}
+    with concurrent.futures.ThreadPoolExecutor(max_workers=3) as ex:
+        for b, res in ex.map(one_build, builds):
+            for r in res:
+                name = r["cases"][: -len(b) - 1] if r["cases"].endswith("-" + b) else r["cases"]
+                a = r.get("ah")
+                if a is None:
+                    crash = r.get("crash") or {}
+                    rp = os.path.join(vf.REPLAYS, "%s-%s-%s-crash.json" % (pid, name, b))
+                    note = crash.get("note") or {}
+                    note.update({"kind": "algo", "crashed": True, "build": b, "rc": crash.get("rc"), "stderr": crash.get("stderr")})
+                    with open(rp, "w") as f:
+                        json.dump(note, f, indent=1)
+                    first = [l for l in (crash.get("stderr") or "").splitlines() if "ERROR" in l or "Error" in l or "runtime error" in l][:1]
+                    violations.append({"replay": rp, "what": "[build %s] %s: harness ended with status %s on case %s %s" %
+                                       (b, name, crash.get("rc"), json.dumps(note.get("case"))[:160], " | ".join(first)[:200])})
+                    continue
+                rec_hash = ""
+                if r.get("records"):
+                    with open(r["records"], "rb") as f:
+                        # the family names inside records do not depend on the build
+                        rec_hash = hashlib.sha256(f.read()).hexdigest()[:16]
+                outcome.setdefault(name, {})[b] = {"failures": a["failures"], "notes": a["fail_notes"], "records": rec_hash,
+                                                   "cases": a["cases"]}
+                per_build[b]["cases"] += a["cases"]
+                per_build[b]["case_runs"] += a["runs"]
+    for name, ob in outcome.items():
+        sig = {b: json.dumps([v["failures"], v["records"], v["cases"]]) for b, v in ob.items()}
+        if len(set(sig.values())) > 1:
+            rp = os.path.join(vf.REPLAYS, "%s-%s-builds.json" % (pid, name))
+            with open(rp, "w") as f:
+                json.dump({"kind": "digest", "cases": name, "per_build": ob}, f, indent=1)
+            violations.append({"replay": rp, "what": "%s: the builds disagree: %s" % (name, json.dumps(sig)[:300])})
+
+    evaluations = sum(v["object_executions"] + v["case_runs"] for v in per_build.values())
+    distinct = max(v["state_graph_transitions_executed"] + v["cases"] for v in per_build.values())
     samples = []
-    with concurrent.futures.ThreadPoolExecutor(max_workers=2) as ex:
-        for b, mres, scns, ares, v in ex.map(one_build, builds):
-            violations += v
-            mc = props_machine.coverage_of(mres, scns)
-            ac = props_algo.coverage_of(ares)
-            per_build[b] = {"compiler_flags": " ".join([vf.BUILD_CONFIGS[b][0]] + vf.BUILD_CONFIGS[b][1]),
-                            "state_graph_transitions_executed": mc["spec_transitions_executed_on_impl"],
-                            "object_executions": mc["impl_executions"], "recorded_events_validated": mc["trace_events_validated"],
-                            "construction_search_io_cases": ac["cases_executed_on_impl"], "case_runs": ac["impl_runs"]}
-            evaluations += mc["impl_executions"] + ac["impl_runs"]
-            distinct = max(distinct, mc["spec_transitions_executed_on_impl"] + ac["cases_executed_on_impl"])
-            if not samples:
-                samples = mc["samples"][:2] + ac["samples"][:3]
+    for (s, (path, _)) in list(zip(scns, emitted))[:2]:
+        with open(path) as f:
+            line = f.readline()
+        try:
+            tr = json.loads(json.loads(line))
+            samples.append({"scenario": s.name, "transition": {"from": tr["from"], "call": tr["c"], "out": tr["out"]}})
+        except Exception:
+            pass
+    for b in builds:
+        per_build[b]["compiler_flags"] = " ".join([vf.BUILD_CONFIGS[b][0]] + vf.BUILD_CONFIGS[b][1])
     cov = {
         "evaluations": evaluations,
         "distinct_nontrivial": distinct,
         "rule": "valid workloads generated from the specification: every transition of the state graphs of the eight classes "
-                "(force on and off, <=2-3 vertices), recorded random histories, every small input of the constructions, "
-                "searches (incl. random and path-explosive graphs), iterators and file round trips; rejected calls and "
-                "malformed files are excluded (they belong to C07/C15); distinct = distinct spec transitions + distinct cases "
-                "(each is run in every build); a case is non-trivial when it executes library code, which all do; verdict: in "
-                "every build the results equal the specification's and no ASan/UBSan/_GLIBCXX_DEBUG diagnostic or crash occurs",
+                "(force on and off, <=2-3 vertices), every small input of the constructions, searches (incl. random and "
+                "path-explosive graphs), iterators and file round trips; rejected calls and malformed files are excluded "
+                "(C07/C15); distinct = distinct spec transitions + distinct cases (each is run in every build); verdict: no crash, "
+                "ASan/UBSan report or _GLIBCXX_DEBUG assertion in any build, and identical results in all builds (digests of "
+                "outcomes and complete projections, identical search/remap records, identical deviations from the specification)",
         "samples": samples or [{"note": "none"}],
         "builds": per_build,
+        "spec_states": sum(p["distinct"] for (_, p) in emitted + a_files + i_files),
+        "spec_transitions": sum(p["generated"] for (_, p) in emitted + a_files + i_files),
     }
-    return violations, cov, ["undefined behaviour is observed only through wrong results, crashes, AddressSanitizer, "
-                             "UndefinedBehaviorSanitizer and libstdc++ debug-mode assertions; reads of uninitialised values are "
-                             "seen only if they change a result (no MemorySanitizer-instrumented libstdc++ is installed)",
-                             "the harness itself is compiled as C++17; the library headers are those of the working tree"]
+    return violations, cov, ["undefined behaviour is observed only through crashes, result differences between builds, "
+                             "AddressSanitizer, UndefinedBehaviorSanitizer and libstdc++ debug-mode assertions; reads of "
+                             "uninitialised values are seen only if they change a result (no MemorySanitizer runtime for libstdc++)",
+                             "the harness itself is compiled as C++17; the library headers are those of the working tree",
+                             "a functional defect that is identical in every build is deliberately not reported here"]
+
+
+def machine_emit(pid, scn):
+    import machine
+    return machine.emit_transitions(pid, scn)
 
 
 PROPERTIES["C17"] = {
